@@ -2,6 +2,7 @@ package props
 
 import (
 	"fmt"
+	"math"
 	"os"
 	"path/filepath"
 	"sort"
@@ -301,7 +302,7 @@ func runC15(c *fw.Ctx, idx int) fw.Result {
 				whi = we
 			}
 			ww := whi - wlo + 1
-			for _, w := range []int{1, 2, 3, 59, 60, 61, L - 1, L, L + 1, 1000000, ww - 1, ww, ww + 1, (ww + L) / 2} {
+			for _, w := range []int{1, 2, 3, 59, 60, 61, L - 1, L, L + 1, 1000000, ww - 1, ww, ww + 1, (ww + L) / 2, math.MaxInt32, math.MaxInt64 - 5, math.MaxInt64} {
 				if w < 1 {
 					continue
 				}
